@@ -185,7 +185,9 @@ func emitBaseTreeCode(repo string) (string, error) {
 		assertId: true,
 		ownArgs:  " E hok",
 		lib: map[string]string{
-			"strings.Index": "Lib.strings_Index",
+			"strings.Index":        "Lib.strings_Index",
+			"strings.TrimLeft":     "Lib.strings_TrimLeft",
+			"net/url.PathUnescape": "Lib.url_PathUnescape",
 			"(github.com/flamego/flamego/internal/route.Tree).getMatchStyle": "Lib.Tree_getMatchStyle",
 			"(github.com/flamego/flamego/internal/route.Leaf).getMatchStyle": "Lib.Leaf_getMatchStyle",
 		},
@@ -197,7 +199,7 @@ func emitBaseTreeCode(repo string) (string, error) {
 			"(*github.com/flamego/flamego/internal/route.matchAllLeaf).matchAll": "Lib.Leaf_matchAll hok",
 		},
 		prelude: "variable (E : Flamego.Engine) (hok : Nat → Bool)\n",
-		skip: map[string]string{"Match": "ranges over the parameter map it returns (the percent-decoding of the values: Model/TreeIdx.Node.matchIdx, tied by the correspondence)",
+		skip: map[string]string{
 			"getParent": "returns an interface value", "getSegment": "returns a pointer", "setSubtrees": "a setter", "setLeaves": "a setter",
 			"getSubtrees": "a getter", "getLeaves": "a getter", "hasMatchAllSubtree": "used when routes are added", "hasMatchAllLeaf": "used when routes are added",
 			"getBinds": "a constant", "match": "a constant", "getMatchStyle": "anonymous receiver"},
